@@ -59,7 +59,8 @@ V_FULL = [
 V_QUICK = ["0", "-1", "256", "vimax", "vimin", "vni", "1.5", "vinf", "vnan", "vnd", '""', '"a"', '"12"', "vns", "vnul",
            'raw("a")', 'raw("12")', "vnb", "vb", "true", "vnt", "vc", "vnc", "vr", "vnr", "tup()", "vtab", "vtabs", "vtab2", "vtabr", "vntab", "vetab",
            "null", "vu", "fnull()", "int()", "num()", "str()", "raw()", "bool()", "tab()", "2", "vs", "uq", "us", "ut", "ur",
-           "f1(ii)", "f1(1.5)", 'f1("a")', "fa", "phi", "pi"]
+           "f1(ii)", "f1(1.5)", 'f1("a")', 'f1(raw("a"))', "fa", "phi", "pi"]
+V_OPAQUE = ["f1(ii)", "f1(1.5)", 'f1("a")', 'f1(raw("a"))', "f1(vtab)", "f1(null)"]
 V_SMALL = ["0", "-1", "vimax", "vimin", "vni", "1.5", "vnan", "vnd", '""', '"a"', "vns", "vnul", 'raw("a")', "vnb", "vnt", "vr", "vtab", "vntab",
            "null", "vu", "2", "vs", "uq", "us"]
 V_SIZE = ["null", "int()", "vni", "-1", "0", "1", "2", "65536", "vi", "1.5", '"a"', "vnd"]   # capped: allocation exhaustion is out of scope
@@ -107,6 +108,13 @@ def vocab_exprs(tier):
         for a in V2:
             for c in V2:
                 yield ("%s(%s, %s)" % (b, a, c), "b2:" + b)
+    if tier != "thorough":
+        # an operand whose type is only known at run time, on either side of every two-argument built-in
+        for b in B1[:6] + B2:
+            for a in V_OPAQUE:
+                for c in V2:
+                    yield ("%s(%s, %s)" % (b, a, c), "b2:" + b)
+                    yield ("%s(%s, %s)" % (b, c, a), "b2:" + b)
     for b, si in B2_SIZE.items():
         for a in (V_SIZE if si == 0 else V2):
             for c in (V_SIZE if si == 1 else V2):
